@@ -211,18 +211,35 @@ pub fn execute_cfg(dir: &Path, paths: &[PathBuf], contents: &[(PathBuf, Option<V
     let config = Config::try_parse_from(&args).expect("cli parses").validate().expect("cli validates");
     let sched = Sched::new(workers, prefix.to_vec());
     set_runtime(Some(sched.clone()));
-    let errors: Mutex<Vec<String>> = Mutex::new(vec![]);
-    pasfmt::format(config, |e: anyhow::Error| {
-        errors.lock().unwrap().push(format!("{e:#}"));
+    // the batch runs on a thread of its own so that a worker that panics or blocks for good (the others then wait
+    // for the baton for ever) is observed instead of hanging the explorer
+    let errors: Arc<Mutex<Vec<String>>> = Arc::new(Mutex::new(vec![]));
+    let e2 = errors.clone();
+    let (tx, rx) = std::sync::mpsc::channel();
+    std::thread::spawn(move || {
+        let r = std::panic::catch_unwind(std::panic::AssertUnwindSafe(|| {
+            pasfmt::format(config, move |e: anyhow::Error| {
+                e2.lock().unwrap().push(format!("{e:#}"));
+            })
+        }));
+        let _ = tx.send(r.is_ok());
     });
+    let aborted = match rx.recv_timeout(std::time::Duration::from_secs(20)) {
+        Ok(true) => None,
+        Ok(false) => Some("the batch driver panicked".to_string()),
+        Err(_) => Some("the batch did not finish within 20 s (a worker panicked or blocks for good)".to_string()),
+    };
     set_runtime(None);
     let (points, trace, diverged) = sched.result();
     let mut files = vec![];
     for (p, _) in contents {
         files.push((p.file_name().unwrap().to_string_lossy().to_string(), std::fs::read(p).ok()));
     }
-    let mut errs = errors.into_inner().unwrap();
+    let mut errs = errors.lock().unwrap().clone();
     errs.sort();
+    if let Some(a) = aborted {
+        errs.push(format!("ABORTED: {a}"));
+    }
     (Outcome { files, errors: errs }, points, trace, diverged)
 }
 
@@ -324,6 +341,9 @@ type Expected = Vec<(Option<Vec<u8>>, bool)>;
 /// the oracle for one execution: None = fine, Some((signature, detail)) = violation
 fn judge(contents: &[(PathBuf, Option<Vec<u8>>)], paths: &[PathBuf], expected: &Expected, outcome: &Outcome, aliased: bool, mode: &str) -> Option<(String, String)> {
     let lossy = |b: &Option<Vec<u8>>| b.as_ref().map(|b| String::from_utf8_lossy(b).to_string());
+    if let Some(a) = outcome.errors.iter().find(|e| e.starts_with("ABORTED: ")) {
+        return Some(("batch-aborted".to_string(), a.clone()));
+    }
     let mut failing: Vec<String> = vec![];
     for (i, (p, _)) in contents.iter().enumerate() {
         let name = p.file_name().unwrap().to_string_lossy().to_string();
